@@ -16,6 +16,9 @@ import ImmuModel.Store.Proofs.TruncateMono
 import ImmuModel.Store.TruncateWalk
 import ImmuModel.Gen.C14
 import ImmuModel.Store.Proofs.TruncateWalkProofs
+import ImmuModel.Store.TruncateDb
+import ImmuModel.Gen.C14Db
+import ImmuModel.Store.Proofs.TruncateDbProofs
 
 namespace ImmuModel.Props.C14
 open ImmuModel.Store.Truncate ImmuModel.Store.TruncateAux
@@ -394,5 +397,75 @@ theorem empty_first_value_blocks_truncation (s : Store) (n id : Nat) (f : Ent) (
         · have : p.2 = 0 := by have := hbf hv; omega
           simp [removes, VLog.removedBy, chunkOf, this]
         · simp [removes, hv]
+
+/-! ### Database level: the catalog copy in front of the truncation (pkg/database/truncator.go, `Store/TruncateDb.lean`) -/
+
+section DatabaseLevel
+open ImmuModel.Store.TruncateDb ImmuModel.Store.TruncateDbAux
+
+/-- **The order the model transcribes is the order of the code** (facts regenerated from
+`pkg/database/truncator.go vlogTruncator.TruncateUptoTx` at every run by extract/c14db.go): ONE catalog copy; the statement
+after it is the guard `if err != nil { …; return err }` — its last statement LEAVES the function, it has no `else`;
+no store truncation is called before the end of that guard and exactly one after it.  (`dbTruncate` = copy,
+`truncationRuns`, `truncateUpto`.)  If the guard stops returning, the copy moves behind the truncation or a second
+truncation call appears, this stops elaborating and the property is reported as no longer shown. -/
+theorem db_truncator_as_in_code :
+    ImmuModel.Gen.C14Db.dbTruncCopyStmt = "sqlCatalogTxID, err := v.db.CopySQLCatalog(ctx, txID)" ∧
+    ImmuModel.Gen.C14Db.dbTruncCopyCalls = 1 ∧
+    ImmuModel.Gen.C14Db.dbTruncCopyGuard = "if err != nil { …; return err }" ∧
+    ImmuModel.Gen.C14Db.dbTruncStoreCallsBeforeGuardEnd = 0 ∧
+    ImmuModel.Gen.C14Db.dbTruncStoreCallsAfterGuard = 1 :=
+  ⟨rfl, rfl, rfl, rfl, rfl⟩
+
+/-- **One database-level truncation keeps the catalog loadable**, whatever `CopySQLCatalog` answers (failed before
+writing, failed at commit after staging its values, committed into any value log), for every cut `n` (also beyond the
+last tx), every store geometry and whatever the store truncation answers: every catalog entry readable before is
+readable afterwards — where "the catalog" afterwards is the COPY when the copy committed.  By the copy-before-truncate
+order: the copy is tx `last + 1 ≥ n`, its values have just been written, and `truncate_safe` keeps them. -/
+theorem db_truncate_keeps_catalog (d : Db) (c : Copy) (n : Nat) (hwf : StoreWF d.store) (hcat : CatalogReadable d) :
+    CatalogReadable (dbTruncate d c n).1 ∧ StoreWF (dbTruncate d c n).1.store := by
+  have := dbTruncate_inv d c n ⟨hwf, hcat⟩
+  exact ⟨this.2, this.1⟩
+
+/-- **After ANY sequence of database-level truncations** — interleaved with ordinary writes, DDL transactions that
+replace any part of the catalog, and restarts; every copy outcome, every cut — **the catalog entries are readable.** -/
+theorem db_truncations_keep_catalog (ops : List Op) (d : Db) (hwf : StoreWF d.store) (hcat : CatalogReadable d) :
+    CatalogReadable (run d ops) :=
+  (run_inv ops d ⟨hwf, hcat⟩).2
+
+/-- **A refused truncation removes nothing**: when the truncator returns the error of the copy, every chunk file of
+every value log is still there, and the tx log is what it was. -/
+theorem db_truncate_refused_removes_nothing (d : Db) (c : Copy) (n : Nat) (h : (dbTruncate d c n).2 = .copyErr) :
+    (dbTruncate d c n).1.store.txs = d.store.txs ∧ (dbTruncate d c n).1.catalog = d.catalog ∧
+    ∀ v ch, ch ∈ (d.store.vlogs v).present → ch ∈ ((dbTruncate d c n).1.store.vlogs v).present := by
+  cases c with
+  | fail => exact ⟨rfl, rfl, fun _ _ hc => hc⟩
+  | failStaged k =>
+    exact ⟨rfl, rfl, fun v ch hc => ImmuModel.Store.TruncateRunAux.appendInto_present _ _ _ _ _ hc⟩
+  | ok k => simp [dbTruncate, copyCatalog, truncationRuns] at h
+
+/-- **Witness: truncating after a FAILED copy loses the catalog** (the counterfactual `dbTruncateNoAbort`: "log the error
+and go on").  Chunk size 64; tx1 = a DDL (two catalog values of 20 bytes in chunk 0), tx2 = a 64-byte filler,
+tx3 = a 30-byte value in chunk 1; cut 3.  The database is well formed and its catalog loads.  With a failed copy the
+code (`dbTruncate`) refuses and the catalog still loads; with a committed copy it removes chunk 0 and the catalog — now
+the copy, tx4 — loads; going on after the failed copy removes chunk 0 as well, answers ok, and NO catalog entry can be
+read any more. -/
+theorem truncate_after_failed_copy_loses_catalog :
+    let d : Db := { store := { F := 64, maxIO := 1,
+                               txs := [appendValues 1 0 [20, 20], appendValues 1 40 [64], appendValues 1 104 [30]],
+                               vlogs := fun _ => { cur := 2, offset := 134, present := [0, 1, 2] } },
+                    catalog := appendValues 1 0 [20, 20] }
+    StoreWF d.store ∧ CatalogReadable d ∧
+    (dbTruncate d .fail 3).2 = .copyErr ∧ CatalogReadable (dbTruncate d .fail 3).1 ∧
+    (dbTruncate d (.ok 0) 3).2 = .trunc .ok ∧ ((dbTruncate d (.ok 0) 3).1.store.vlogs 1).present = [1, 2] ∧
+      CatalogReadable (dbTruncate d (.ok 0) 3).1 ∧
+    (dbTruncateNoAbort d .fail 3).2 = .trunc .ok ∧ ((dbTruncateNoAbort d .fail 3).1.store.vlogs 1).present = [1, 2] ∧
+      (∀ e ∈ (dbTruncateNoAbort d .fail 3).1.catalog, ¬ (dbTruncateNoAbort d .fail 3).1.store.readable e) := by
+  refine ⟨fun v => ⟨by show 2 ∈ [0, 1, 2]; decide, by show 2 ≤ chunkOf 64 134; decide⟩, ?_, by decide, ?_, by decide, by decide, ?_, by decide, by decide, by decide⟩
+  · unfold CatalogReadable; decide
+  · unfold CatalogReadable; decide
+  · unfold CatalogReadable; decide
+
+end DatabaseLevel
 
 end ImmuModel.Props.C14
